@@ -568,6 +568,12 @@ class PreludeMixin:
                     st.assume(z3.ForAll([kk], z3.Select(res.t[0], kk) == z3.Select(recv.t[0], kk) + sign * z3.Select(other.t[0], kk),
                                         patterns=[z3.Select(res.t[0], kk)]))
                     return [(st, None, res)]
+        if getattr(k, 'name', None) in ('Any', 'Str') and meth == 'encode' and not args:
+            # str.encode(): the bytes are a function of the text (token)
+            from core import KAny
+            tok = self.any_token(st, recv)
+            f = self.recfuncs.setdefault(('$any_encode',), z3.Function('any_encode', I, I))
+            return [(st, SVal(KAny, [f(tok.z)]), None)]
         if getattr(k, 'name', None) == 'Any' and meth == 'decode' and not args:
             # bytes.decode(): the text is a function of the bytes (token to token)
             f = self.recfuncs.setdefault(('$any_decode',), z3.Function('any_decode', I, I))
